@@ -48,8 +48,10 @@ applied, the demonstration on both trees, and verdict + reported keys of the
 check(s) run against a scratch tree with the change (never `/repo` itself).
 `-1/-2` are from the first round, `-3/-4` from the second, `-5..-7`, `-8..-10`,
 `-11..-13`, `-14..-16`, `-17..-19` and `-20..-22` from rounds three to eight,
-`-23/-24` from the ninth (some changes repeat an earlier mechanism; they were
-kept as independent re-discoveries).  The last
+`-23/-24` from the ninth, `-25/-26` from the tenth (some changes repeat an
+earlier mechanism; they were kept as independent re-discoveries; a few
+patches were re-written after a `fix:` commit touched their lines, meta.json
+says so under "rebased").  The last
 column shows the property's own quick check (seed 0) and, where that one
 holds, the quick check of another property that reports the change.
 
